@@ -83,6 +83,8 @@ pub fn c17_hooks() -> Hooks {
             // cases that carry steps of the wall clock run with the default 300 s time-to-live of the DNS cache: entries seeded before
             // a forward step are stale at the next frame (the path that queues them again)
             dns_ttl_s: if c.ops.iter().any(|o| matches!(o, Op::Clock(_))) { 300 } else { 1 << 30 },
+            // every third case traces IPv6 targets
+            target_v6: c.ops.len() % 3 == 0,
             geoip_mode: if c.ops.len() % 2 == 0 { [GeoIpMode::Short, GeoIpMode::Long, GeoIpMode::Location, GeoIpMode::Off][c.ops.len() / 2 % 4] } else { GeoIpMode::Off },
             ..Setup::default()
         }),
@@ -628,6 +630,21 @@ pub fn structured_cases() -> Vec<Case> {
         f(120, 40), round_of_path(0, 1, 1, &path(&[1, 2, 3]), 0), Op::Clear { t: 0 }, outage(2, 3), outage(3, 3), f(120, 40),
         k("next_hop"), k("toggle_hop_details"), k("expand_hosts_max"), f(120, 40), round_of_path(0, 4, 1, &path(&[1, 5, 3]), 0), f(120, 40), f(80, 24),
     ]));
+    // the settings dialog: every tab, the selection walked down past the last item and up again (once with IPv4 and once with IPv6 targets:
+    // the number of ops decides)
+    for pad in 0..3usize {
+        let mut ops = vec![f(120, 40), round_of_path(0, 1, 1, &path(&[1, 2, 3]), 0), f(120, 40), k("toggle_settings"), f(160, 100)];
+        for _tab in 0..7 {
+            for _ in 0..45 { ops.push(k("next_hop")); }
+            ops.push(f(160, 100));
+            ops.push(f(20, 5));
+            for _ in 0..3 { ops.push(k("previous_hop")); }
+            ops.push(f(160, 100));
+            ops.push(k("next_trace"));
+        }
+        for _ in 0..pad { ops.push(f(80, 24)); }
+        v.push(base(1, ops));
+    }
     // host names on display, then more time than the DNS time-to-live passes without a frame (chart shown), then the table again
     v.push(base(1, vec![
         f(120, 40), round_of_path(0, 1, 1, &path(&[1, 2, 3]), 0), k("address_mode_host"), f(120, 40), k("toggle_chart"), f(120, 40),
